@@ -174,7 +174,12 @@ func r105(c *Ctx, r *R) {
 	if f == nil {
 		return
 	}
-	un := findCalls(f, false, ModPath+".Cluster).Unpin")
+	// in StateSync or in a helper extracted from it (whose call-site
+	// guards count: see guardsOf)
+	var un []ssa.CallInstruction
+	for _, dc := range findCallsDeep(f, ModPath+".Cluster).Unpin") {
+		un = append(un, dc.Inner)
+	}
 	if len(un) != 1 {
 		r.Bad("sweep:unpin", f.Pos(), "StateSync has %d Unpin calls", len(un))
 		return
@@ -240,13 +245,13 @@ func r106(c *Ctx, r *R) {
 			r.Check(ok, "isClosest:strict", lf.Pos, "a peer loses only when its distance is strictly larger", "isClosest returns false on a non-strict comparison: with equal distances nobody is closest (or the comparison is inverted)")
 		}
 	}
-	g := c.fn(r, "", "Cluster.getTrustedPeers")
+	// the peers the distance checker compares against: built in distances()
+	// or in a helper extracted from it (getTrustedPeers)
+	g := c.fn(r, "", "Cluster.distances")
 	if g != nil {
 		n := 0
-		for _, ci := range callsIn(g) {
-			if callName(ci.Common()) != "builtin.append" {
-				continue
-			}
+		for _, dc := range findCallsDeep(g, "=builtin.append") {
+			ci := dc.Inner
 			n++
 			b := ci.Block()
 			notSelf, notExcl, trusted := false, false, false
@@ -260,6 +265,8 @@ func r106(c *Ctx, r *R) {
 						if fl, _ := fieldLoad(side); fl != nil && fl.Name() == "id" {
 							notSelf = true
 						}
+						// the excluded peer is distances' own parameter,
+						// directly or forwarded to the helper
 						if paramIndex(g, side) == 2 {
 							notExcl = true
 						}
@@ -293,21 +300,12 @@ func r106(c *Ctx, r *R) {
 					}
 				}
 			}
-			r.Check(notSelf && notExcl && trusted, "getTrustedPeers:filter", ci.Pos(), "others = trusted members except self and the excluded (failed) peer",
-				fmt.Sprintf("getTrustedPeers keeps a peer without requiring != self (%v), != excluded (%v), trusted (%v)", notSelf, notExcl, trusted))
+			r.Check(notSelf && trusted, "getTrustedPeers:filter", ci.Pos(), "others = trusted members except self",
+				fmt.Sprintf("the distance checker's peer list keeps a peer without requiring != self (%v), trusted (%v)", notSelf, trusted))
+			r.Check(notExcl, "distances:exclude-forwarded", ci.Pos(), "the excluded (failed) peer passed to distances() is left out of the list", "the peer excluded by the caller of distances() is not left out of the distance checker's peer list")
 		}
 		if n == 0 {
-			r.Und("getTrustedPeers:append", g.Pos(), "shape not recognised")
+			r.Und("getTrustedPeers:append", g.Pos(), "the construction of the distance checker's peer list was not recognised")
 		}
-	}
-	d := c.fn(r, "", "Cluster.distances")
-	if d != nil {
-		ok := false
-		for _, ci := range findCalls(d, false, ModPath+".Cluster).getTrustedPeers") {
-			if paramIndex(d, callArgs(ci.Common())[1]) == 2 {
-				ok = true
-			}
-		}
-		r.Check(ok, "distances:exclude-forwarded", d.Pos(), "the excluded peer is forwarded to the trusted-peer computation", "distances() does not forward the excluded peer")
 	}
 }
